@@ -198,6 +198,42 @@ pub fn c15(cx: &Cx) -> i32 {
         SC.with(|c| { let c2 = c.borrow().clone(); seen_some = c2.0; seen_none = c2.1; if let Some(m) = c2.2 { rep.fail("ES-shared-core", core_q, "core-arguments", &m, &site(&core), json!({})); } else { rep.pass("ES-shared-core"); } *c.borrow_mut() = (false, false, None); });
         rep.check(seen_some && seen_none, "ES-shared-core", core_q, "attr-some-none", "the core is not called once with the attribute's arguments and once without", &site(&core), json!({}));
     }
+    // the derive entry point: the core's tokens as they are, a core error as its compile_error (never swallowed)
+    for e in &eps {
+        if !e.attrs.iter().any(|a| a == "proc_macro_derive") { continue; }
+        let mut ev = mk_ev(ix);
+        let mut inner = Vec::new();
+        for c in cg.edges.get(&e.qual).cloned().unwrap_or_default() { if let Some(g) = ix.get_fn(&c) { if sig_text(&g).ends_with("->Result<TokenStream>") { ev.stops.push((c.clone(), "ret")); inner.push(c.clone()); } } }
+        let outs = ev.call_fn(St::new(), e, None, vec![sym("TokenStream", "input")]);
+        rep.unanalysable(&e.qual, &ev.unsupported.borrow());
+        let (mut ok_seen, mut err_seen, mut bad) = (false, false, Vec::new());
+        for (st, fl) in &outs {
+            let v = match fl { Flow::Val(v) | Flow::Ret(v) => v, _ => continue };
+            let built = st.cond.iter().find(|(a, _)| inner.iter().any(|q| a.contains(&format!("{q}#")))).map(|(a, b)| if a.ends_with(" is Err") { !*b } else { *b });
+            match built {
+                Some(true) => { if v.any(&|y| matches!(y, Val::Sym { path, .. } if inner.iter().any(|q| path.starts_with(&format!("{q}#"))))) { ok_seen = true; } else { bad.push(format!("success returns {}", v.short().chars().take(100).collect::<String>())); } }
+                Some(false) => { if v.any(&|y| matches!(y, Val::Opaque { what, .. } if what == ".to_compile_error" || what == ".into_compile_error")) { err_seen = true; } else { bad.push(format!("an error returns {}", v.short().chars().take(100).collect::<String>())); } }
+                None => {}
+            }
+        }
+        rep.check(ok_seen && err_seen && bad.is_empty(), "ES-shared-core", &e.qual, "derive-entry-result", &format!("the derive entry point does not return the generated tokens, or an error as its compile_error ({})", bad.join("; ")), &site(e), json!({"ok seen": ok_seen, "error seen": err_seen}));
+    }
+    // which attributes count as `#[derive_ex(..)]` argument lists: exactly those whose path is `derive_ex`, in source order
+    if let Some(pf) = find_fn(ix, &|f| f.self_ty.is_none() && sig_text(f).contains("&[Attribute]") && sig_text(f).ends_with("->Result<Vec<T>>")) {
+        let ev = mk_ev(ix);
+        let outs = ev.call_fn(St::new(), &pf, None, vec![Val::Sym { ty: Ty::Slice(Box::new(Ty::Named("Attribute".into(), vec![]))), path: "attrs".into() }]);
+        rep.unanalysable(&pf.qual, &ev.unsupported.borrow());
+        let (mut taken, mut skipped, mut bad) = (false, false, Vec::new());
+        for (st, fl) in &outs {
+            let v = match fl { Flow::Val(v) | Flow::Ret(v) => v, _ => continue };
+            let Val::Enum { var, args, .. } = v else { continue };
+            if var != "Ok" { continue; }
+            let is_de = st.cond.iter().find(|(a, _)| a.contains("derive_ex") && (a.contains("==quote(derive_ex)") || a.contains("==\"derive_ex\"") || a.contains(".is_ident"))).map(|(_, b)| *b);
+            let item = args.first().map(|x| x.any(&|y| matches!(y, Val::Opaque { what, .. } if what == ".parse_args")) && x.any(&|y| matches!(y, Val::Sym { path, .. } if path.starts_with("attrs[*]")))).unwrap_or(false);
+            match is_de { Some(true) => { if item { taken = true; } else { bad.push("a derive_ex attribute is not parsed into the list".to_string()); } } Some(false) => { if !item { skipped = true; } else { bad.push("an attribute of another name is parsed as derive_ex arguments".to_string()); } } None => bad.push(format!("the attribute's path is not compared with `derive_ex`: [{}]", cond_str(&st.cond))) }
+        }
+        rep.check(taken && skipped && bad.is_empty(), "DM-arg-merge", &pf.qual, "derive-ex-attrs-only", &format!("the item's argument lists are not exactly its `#[derive_ex(..)]` attributes ({})", bad.join("; ")), &site(&pf), json!({}));
+    } else { rep.fail("unanalysable", "parse_derive_ex_attrs", "not-found", "(&[Attribute]) -> Result<Vec<T>> not found", "item_type.rs", json!({})); }
     // DM-arg-merge: macro arguments first, then each derive_ex attribute in source order; entries in list order
     if let Some(fr) = find_fn(ix, &|f| f.self_ty.as_deref() == Some("DeriveEntry") && sig_text(f).contains("Option<TokenStream>") && sig_text(f).contains("Result<Vec<Self>>")) {
         let mut ev = mk_ev(ix);
